@@ -84,11 +84,30 @@ def header_order(F, rep, P):
         rep.check(P, "writer emits the block-size escape before the sample-rate escape", names == ["block_size", "sample_rate"] and b.dominates(sw[0][0], sw[1][0]), loc_of(b), str(names))
 
 
+def frame_params_rule(F, rep, R):
+    """audio::Frame::resize is how every reader stamps a decoded frame with its header's parameters: each of bits_per_sample,
+    channels and channel_len is stored on every path to the return (a store under a condition leaves the previous frame's value)"""
+    b = anchor(F, rep, R, "audio::Frame::resize")
+    if b is None:
+        return
+    rets = [bi for bi, bl in enumerate(b.blocks) if bl["t"] and bl["t"]["t"] == "ret"]
+    n = 0
+    for fld in ("bits_per_sample", "channels", "channel_len"):
+        st_blocks = [bi for bi, bl in enumerate(b.blocks) for st in bl["s"] if place_fields(st["d"])[:1] == [fld] and (root_place(b, {"l": st["d"]["l"], "p": []}) or {}).get("l") == 1]
+        st_blocks += [bi for bi, bl in enumerate(b.blocks) for st in bl["s"] if st["d"]["l"] == 1 and place_fields(st["d"])[:1] == [fld]]
+        n += 1 if st_blocks else 0
+        good = bool(st_blocks) and all(must_pass(b, r, st_blocks) for r in rets)
+        rep.check(R, "Frame::resize stores %s on every path" % fld, good, loc_of(b), "",
+                  "Frame::resize can return without storing %s: a frame whose parameters differ from the previous one's is handed out with the stale value" % fld)
+    rep.floor(R, "frame parameters stamped by Frame::resize", n, 3)
+
+
 def run(ctx, rep):
     F = ctx.facts()
     cg = ctx.cg()
     ok = OkImplies(F, cg)
     ok.some_only = True
+    frame_params_rule(F, rep, "C16.params")
     # ---- C16.subset ------------------------------------------------------------------------------
     wb = anchor(F, rep, "C16.subset", "encode::FlacStreamWriter::write")
     if wb is not None:
@@ -192,6 +211,9 @@ def run(ctx, rep):
     iolib.count_rules(ctx, rep, "C16")
     from rules import cachelib
     cachelib.cache_rules(ctx, rep, "C16")
+    # the header fields are written from the integers the enums carry: a truncating `as` on the way silently changes the code written
+    from rules import castlib
+    rep.floor("C16.cast", "narrowing casts inspected", castlib.cast_audit(ctx, rep, "C16", ["stream.rs", "crc.rs"]), 3)
     from rules import C03 as _C03
     compose(ctx, rep, "C03", "C16.codes", r"^C03\.rfc$")
     # FlacStreamWriter shares the frame encoder: a frame that decodes to other samples than were written is a frame that
